@@ -13,7 +13,20 @@ package webdav
 // avoids the op shapes on which a divergence is already known (listed in c44Risky), so that
 // a history can run to its end and everything else stays checked. One quarter are "probing":
 // those shapes are generated too; the first divergence ends the history, because from then
-// on the two trees may legitimately differ.
+// on the two trees may legitimately differ. The one exception is memFS opening an existing
+// directory for writing (native refuses): nothing changed on either side, the handle is
+// dropped and the history goes on.
+//
+// Triage of the divergences found on the pinned tree (all genuine: the native outcome is what
+// package os documents or does on every platform, not a Linux peculiarity):
+//   - Rename(x, x) of a missing name / of the root returns nil   (repair: rename-onto-itself.diff)
+//   - RemoveAll below a missing directory fails                  (os.RemoveAll: "If the path does
+//     not exist, RemoveAll returns nil"; repair: removeall-missing-parent.diff)
+//   - Read through O_WRONLY / Write through O_RDONLY handles work (handle-access-mode.diff)
+//   - a zero-length Write after a Seek past the end extends the file (empty-write-past-eof.diff)
+//   - O_APPEND and O_SYNC are refused with "invalid argument"    (open-append-sync.diff)
+//   - a directory other than the root can be opened for writing: not repairable inside memFS,
+//     the package's own PROPPATCH code opens collections with O_RDWR (known finding).
 //
 // Shapes never generated (the native outcome is OS specific or unspecified, so the contract
 // "same semantics as package os" promises nothing that could be compared):
